@@ -33,4 +33,4 @@ def run(ck):
               "non-trivial = distinct (reactor, producers, registered handlers) scenario shapes",
               "units_total", "shapes", min_evals=20000,
               required_nonzero=("slot_reuse_scenarios", "outcome_io_cancel_race_success", "outcome_io_cancel_race_canceled", "outcome_timer_fire_success",
-                                "outcome_timer_cancel_far_canceled", "outcome_io_readable_success", "jobs_cancelled", "jobs_ran", "jobs_throwing", "object_scenarios", "loop_scenarios", "pool_scenarios", "overtake_iterations", "near_deadline_groups", "rearm_scenarios", "hangup_cases", "prerun_scenarios", "yields_taken"))
+                                "outcome_timer_cancel_far_canceled", "outcome_io_readable_success", "jobs_cancelled", "jobs_ran", "jobs_throwing", "object_scenarios", "loop_scenarios", "pool_scenarios", "overtake_iterations", "double_wait_scenarios", "fd_reuse_scenarios", "near_deadline_groups", "rearm_scenarios", "hangup_cases", "prerun_scenarios", "yields_taken"))
